@@ -256,6 +256,47 @@ func Generate(r *rng.R, cfg GenCfg) *Schema {
 			f := files[i%len(files)]
 			f.Defs = append(f.Defs, d)
 		}
+		// satellite files with an import list of their own: one that uses its import only through list
+		// element types, one that uses it only in method signatures (no field refers to it)
+		for _, q := range s.Pkgs {
+			var qm, qv []*Def
+			for _, d := range q.Defs() {
+				switch d.Kind {
+				case DMessage:
+					qm = append(qm, d)
+				case DStruct, DEnum:
+					qv = append(qv, d)
+				}
+			}
+			if len(qm) == 0 || r.Intn(3) != 0 {
+				continue
+			}
+			im := Import{ID: q.ID}
+			if r.Bool() {
+				im.Alias = fmt.Sprintf("sat%s", q.Name)
+			}
+			ref := func(d *Def) *Type { return &Type{Kind: TRef, Name: d.Name, Import: im.Name(), Ref: d} }
+			if r.Bool() {
+				d := &Def{Kind: DMessage, Name: g.id("Lst"), Pkg: p}
+				elems := append(append([]*Def(nil), qm...), qv...)
+				tags := g.tags(3)
+				for i := 0; i < 1+r.Intn(3); i++ {
+					e := elems[r.Intn(len(elems))]
+					d.Fields = append(d.Fields, Field{Name: fmt.Sprintf("elems_%d", i), Type: &Type{Kind: TList, Name: "[]", Elem: ref(e)}, Tag: tags[i]})
+				}
+				f := &File{Name: fmt.Sprintf("lists%d.spec", len(p.Files)), Imports: []Import{im}, Defs: []*Def{d}}
+				p.Files = append(p.Files, f)
+			} else if cfg.Services {
+				svc := &Def{Kind: DService, Name: g.id("Sig"), Pkg: p}
+				svc.Methods = append(svc.Methods, Method{Name: "get", InType: ref(qm[r.Intn(len(qm))]), HasOut: true, OutType: ref(qm[r.Intn(len(qm))])})
+				if r.Bool() {
+					svc.Methods = append(svc.Methods, Method{Name: "put_it", InType: ref(qm[r.Intn(len(qm))])})
+				}
+				f := &File{Name: fmt.Sprintf("sig%d.spec", len(p.Files)), Imports: []Import{im}, Defs: []*Def{svc}}
+				p.Files = append(p.Files, f)
+			}
+			break
+		}
 		s.Pkgs = append(s.Pkgs, p)
 	}
 	return s
